@@ -214,6 +214,12 @@ func (l *List) M__setitem__(key, value Object) (Object, error) {
 		if err != nil {
 			return nil, err
 		}
+		// read the value before the list is touched: it may be the list
+		// itself, or not iterable at all
+		newItems, err := SequenceTuple(value)
+		if err != nil {
+			return nil, err
+		}
 		if step == 1 {
 			if stop < start {
 				stop = start
@@ -222,17 +228,9 @@ func (l *List) M__setitem__(key, value Object) (Object, error) {
 			tailSlice := l.Items[stop:]
 			tail := make([]Object, len(tailSlice))
 			copy(tail, tailSlice)
-			l.Items = l.Items[:start]
-			err = l.ExtendSequence(value)
-			if err != nil {
-				return nil, err
-			}
+			l.Items = append(l.Items[:start], newItems...)
 			l.Items = append(l.Items, tail...)
 		} else {
-			newItems, err := SequenceTuple(value)
-			if err != nil {
-				return nil, err
-			}
 			if len(newItems) != slicelength {
 				return nil, ExceptionNewf(ValueError, "attempt to assign sequence of size %d to extended slice of size %d", len(newItems), slicelength)
 			}
